@@ -110,7 +110,7 @@ impl Prop for C11 {
     }
 
     fn cases(tier: Tier) -> u64 {
-        tier.pick(100_000, 20_000_000)
+        tier.pick(300_000, 20_000_000)
     }
 
     fn enumerate(tier: Tier) -> Vec<Case> {
@@ -129,7 +129,7 @@ impl Prop for C11 {
 
     fn strategy(tier: Tier) -> BoxedStrategy<Case> {
         let max = tier.pick(24, 40);
-        (any::<bool>(), vec((any::<u16>(), any::<u8>()).prop_map(|(which, flavour)| Pick { which, flavour }), 1..=max), tier.pick(2u8..=4, 2u8..=6), vec(any::<u16>(), 0..8), prop::bool::weighted(0.03))
+        (any::<bool>(), vec((any::<u16>(), any::<u8>()).prop_map(|(which, flavour)| Pick { which, flavour }), 1..=max), tier.pick(2u8..=4, 2u8..=6), vec(any::<u16>(), 0..8), prop::bool::weighted(0.05))
             .prop_map(|(swap, picks, max_dials, drain, lifecycle)| Case::Random { swap, picks, max_dials, drain, lifecycle })
             .boxed()
     }
